@@ -2,7 +2,7 @@
    Only the property theorems, each closed by [exact] and followed by Print Assumptions.
    h_* / op_* = helper bodies and plain operators of cbuiltins.lua over the C semantics of CSem.v
    (OUB = undefined behaviour); nl / cl = the compiler's and the C compiler's layout functions. *)
-From C03 Require Import Model ProofsBase ProofsDiv ProofsShiftBase ProofsShift ProofsMisc ProofsLayoutArith ProofsLayout ProofsEq.
+From C03 Require Import Model ProofsBase ProofsDiv ProofsShiftBase ProofsShift ProofsMisc ProofsEmitShift ProofsLayoutArith ProofsLayout ProofsEq.
 Local Open Scope Z_scope.
 
 (* ---- core 2: UB-freedom of the run-time helpers, every integer width ---- *)
@@ -45,6 +45,16 @@ Print Assumptions C03_asr_no_ub_gnu.
 Theorem C03_asr_no_ub_fwrapv_refuted : ~ asr_no_ub_fwrapv_full.
 Proof. exact asr_no_ub_fwrapv_refuted. Qed.
 Print Assumptions C03_asr_no_ub_fwrapv_refuted.
+
+(* the three shift operators exactly as operators.shl/shr/asr emit them - plain C operator for a constant count
+   below the width that the generator compares against (scraped into Gen.v: the shifted operand's width),
+   helper otherwise - for every operand type, count type and count *)
+Theorem C03_emitted_shifts_no_ub : forall m t ct cnt a b, m_gnushl m = true -> ity_ok t -> in_ity t a -> in_ity I64 b ->
+  emit_shl shl_fast_width_left m t ct cnt a b <> OUB /\
+  emit_shr shr_fast_width_left m t ct cnt a b <> OUB /\
+  emit_asr asr_fast_width_left m t ct cnt a b <> OUB.
+Proof. exact emitted_shifts_no_ub. Qed.
+Print Assumptions C03_emitted_shifts_no_ub.
 
 Theorem C03_cmp_helpers_no_ub : forall lt rt a b,
   h_lt_su lt rt a b <> OUB /\ h_lt_us lt rt a b <> OUB /\ h_eq_su lt rt a b <> OUB.
